@@ -299,7 +299,7 @@ def handle : Handler := fun m j =>
       let (x, tbl) ← desNodeAlone n
       let y ← serNode [tableNames tbl] (optVer j) x
       pure (eNode y)
-    return answer res (wfNode [n.outputs.filter (· ≠ "")] n && nodupStr (n.outputs.filter (· ≠ ""))) (eNode (normNode n))
+    return answer res (wfNodeAlone n) (eNode (normNode n))
   | "serde.graph" => some do
     let g ← dGraph (← field j "x")
     let res := do
@@ -323,7 +323,6 @@ def handle : Handler := fun m j =>
         ("vi_nodup", Json.bool (nodupStr (valueInfo.map (·.name)))),
         ("vi_not_io", Json.bool (valueInfo.all (fun vi => !inputNames.contains vi.name && !outputNames.contains vi.name))),
         ("out_nodup", Json.bool (nodupStr outputNames)),
-        ("out_input_same", Json.bool (outputs.all (fun vo => !inputNames.contains vo.name || inputs.contains vo))),
         ("init_wf", Json.bool (initializers.all (fun t => wfTensor t && validDType t.dataType))),
         ("quant", Json.bool (nodupStr (quant.map (·.tensorName)) && quant.all (fun a => names.contains a.tensorName && !a.params.isEmpty && wfEntries a.params))),
         ("meta", Json.bool (wfEntries metadata)),
@@ -348,7 +347,7 @@ def handle : Handler := fun m j =>
       let x ← desFunction f
       let y ← serFunction (optVer j) true x
       pure (eFunction y)
-    return answer res (wfFunction 10 f) (eFunction (normFunction true f))
+    return answer res (wfFunctionAlone f) (eFunction (normFunction true f))
   | "serde.model" => some do
     let mdl ← dModel (← field j "x")
     let res := do
